@@ -17,6 +17,12 @@ type check struct {
 
 var registry = map[string]check{
 	"C01": {"model_checking", checks.C01},
+	"C04": {"model_checking", checks.C04},
+	"C05": {"model_checking", checks.C05},
+	"C08": {"model_checking", checks.C08},
+	"C09": {"model_checking", checks.C09},
+	"C13": {"model_checking", checks.C13},
+	"C16": {"model_checking", checks.C16},
 }
 
 func main() {
